@@ -62,3 +62,28 @@ Theorem C08_solver_model_decide_legal : forall U P A a_ge (st : sstate A) d,
   exists c, nth_error (s_db st) (N.to_nat (pd_clause d)) = Some c /\
             decision_kind (s_db st) (tr_lits st) c (VSol (pd_cand d), true) = Some (if is_vroot (pd_parent d) then ERootDec else EDec).
 Proof. exact sinv_decide_legal. Qed.
+
+(* ---- the hypothesis "the root's requirements are the first ones in the database" is an invariant of the
+   solver model (Cdcl/RootFirst.v): a Requires clause of a solvable can only be produced after the completion
+   of a task for another requirement has revealed it (and that completion adds its own clause first) or after
+   the first encode -- of the root -- has returned, at which point every requirement of the root has its
+   clause whatever the completion order of the encoder's futures ---- *)
+From Resolvo Require Import Cdcl.RootFirst.
+
+Theorem C08_solver_model_root_first : forall U P, WF U -> forall A a_ge a_conflict fuel efuel (a0 : A) order sol st,
+  solve U P a_ge a_conflict fuel efuel a0 order = (OSat sol, st) -> RF' P A st.
+Proof. exact solve_rf. Qed.
+
+Theorem C08_root_first_from_invariant : forall U P A (st : sstate A),
+  SInv U P A st -> RF P A st -> root_first (s_db st) = true.
+Proof. exact rf_root_first. Qed.
+
+(* hence, with nothing left to evaluate per run: in every state of the model that satisfies the invariants (the
+   structural one, the level structure with the root at the bottom of the trail, RF) what decide proposes is a
+   legal decision of the abstract machine -- rules D1 and D2 *)
+Theorem C08_solver_model_decide_legal_by_invariants : forall U P A a_ge (st : sstate A) d,
+  SInv U P A st -> LInv A st -> Rooted (ps_trail (s_ps st)) -> RF P A st ->
+  decide U (a_ge (s_act st)) (s_db st) (tr_lits st) = Some (Some d) ->
+  exists c, nth_error (s_db st) (N.to_nat (pd_clause d)) = Some c /\
+            decision_kind (s_db st) (tr_lits st) c (VSol (pd_cand d), true) = Some (if is_vroot (pd_parent d) then ERootDec else EDec).
+Proof. exact model_decide_legal. Qed.
